@@ -478,6 +478,7 @@ CONSTANTS
   Traced = {traced}
   TraceLeakFix = TRUE
   ReuseLeakFix = {rlf}
+  RequeueHandoff = {rqh}
 {liminv}INVARIANT Accounting
 INVARIANT NoLostWake
 INVARIANT NoLeak
@@ -491,6 +492,8 @@ VARIANTS = {
     "KeyOf1": (["t1", "t2", "t3"], ["k1"], {"t1": "k1", "t2": "k1", "t3": "k1"}),
     "KeyOf2": (["t1", "t2", "t3"], ["k1", "k2"], {"t1": "k1", "t2": "k1", "t3": "k2"}),
     "KeyOf4": (["t1", "t2", "t3", "t4"], ["k1", "k2"], {"t1": "k1", "t2": "k1", "t3": "k2", "t4": "k2"}),
+    "KeyOf5": (["t1", "t2", "t3", "t4", "t5"], ["k1", "k2"],
+               {"t1": "k1", "t2": "k1", "t3": "k2", "t4": "k2", "t5": "k2"}),
 }
 
 
@@ -500,14 +503,14 @@ def tla_set(xs: List[str]) -> str:
 
 def write_cfg(variant: str, L: int, Lh: int, handoff: bool, mc: int, mf: int, close: bool, peer: bool,
               ideal: bool = False, limits: bool = True, traced: Optional[List[str]] = None,
-              rlf: bool = True) -> tuple:
+              rlf: bool = True, rqh: bool = True) -> tuple:
     tasks, keys, keyof = VARIANTS[variant]
     d = mktemp("c07cfg")
     p = os.path.join(d, f"ClientPool_{variant}_{L}_{Lh}.cfg")
     with open(p, "w") as f:
         f.write(CFG.format(tasks=tla_set(tasks), keys=tla_set(keys), keyof=variant, L=L, Lh=Lh,
                            handoff=str(handoff).upper(), reuse=str(ideal).upper(),
-                           traced=tla_set(traced or []), rlf=str(rlf).upper(),
+                           traced=tla_set(traced or []), rlf=str(rlf).upper(), rqh=str(rqh).upper(),
                            liminv="INVARIANT HarnessLimit\nINVARIANT LimitInv\n" if limits else "", mc=mc, mf=mf, close=str(close).upper(),
                            peer=str(peer).upper()))
     return p, {"tasks": tasks, "keys": keys, "keyof": keyof, "L": L, "Lh": Lh, "traced": list(traced or [])}
@@ -574,6 +577,11 @@ def run(ctx: Ctx) -> None:
         res = run_tlc("ClientPoolMC", cfg, workers=16, timeout=ctx.pick(400, 3000), deadlock=False)
         ok = ctx.expect_model_ok(f"ClientPool[as-coded,traced={tr}]({variant},L={L},Lh={Lh})", res)
         ctx.log(f"model[traced {tr}] {variant} L={L} Lh={Lh}: {res.distinct} distinct states ok={ok} {res.wall_s:.0f}s")
+    # (b'') five callers, two endpoints, limit_per_host: a wake-up that the woken waiter cannot use must be passed on
+    cfg, _ = write_cfg("KeyOf5", 3, 1, True, ctx.pick(0, 1), 1, False, False, ideal=False, limits=False)
+    res = run_tlc("ClientPoolMC", cfg, workers=16, timeout=ctx.pick(600, 3000), deadlock=False)
+    ok = ctx.expect_model_ok("ClientPool[as-coded](KeyOf5,L=3,Lh=1)", res)
+    ctx.log(f"model[as-coded] KeyOf5 L=3 Lh=1: {res.distinct} distinct states ok={ok} {res.wall_s:.0f}s")
     # (c) the as-coded model with the limit invariants: TLC exhibits the known deviation
     cfg, _ = write_cfg("KeyOf2", 1, 0, True, 0, 0, False, False, ideal=False, limits=True)
     res = run_tlc("ClientPoolMC", cfg, workers=16, timeout=300, deadlock=False)
@@ -626,6 +634,10 @@ def selftest(ctx: Ctx) -> int:
     res = run_tlc("ClientPoolMC", cfg, workers=16, timeout=300, deadlock=False)
     print("mutant model (ReuseLeakFix=FALSE, traced callers):", res.violated)
     ok1 = ok1 and res.violated == "NoUntracked"
+    cfg, _ = write_cfg("KeyOf5", 3, 1, True, 0, 1, False, False, rqh=False)
+    res = run_tlc("ClientPoolMC", cfg, workers=16, timeout=600, deadlock=False)
+    print("mutant model (RequeueHandoff=FALSE, five callers):", res.violated)
+    ok1 = ok1 and res.violated == "NoLostWake"
     # trace-level: corrupt a good trace
     x = PoolExec(loop, 1, 0, ["t1", "t2"], {"t1": "k1", "t2": "k1"})
     x.spawn("t1"); x.settle(); x.spawn("t2"); x.settle(); x.create_ok("t1"); x.settle()
